@@ -8,7 +8,7 @@ for p in sys.argv[1:]:
     ev = json.load(open(V + "/evidence/%s.json" % p))
     c = {}
     for k, v in ev["coverage"]["rule_instance_counts"].items():
-        if k == "FLOOR" or ".delegated" in k or ".untainted" in k or k == "R-DIV":
+        if k == "FLOOR" or ".delegated" in k or ".untainted" in k or k in ("R-DIV", "R-UNIT"):
             continue  # census counts that legitimately shrink when code gets safer
         if k in ("R-PANIC", "R-STRSLICE", "R-ARITH", "R-REENTRANT", "R-WPROP.fmt", "R-FREEZE", "R-CMPTOTAL"):
             v = max(1, v // 2)  # census: guard only against the rule going (nearly) vacuous
